@@ -15,7 +15,31 @@
    materialised as a YAML/JSON v2 file and run through the REAL `mockery migrate`; the written v3 file is
    read back with PyYAML and loaded with the real `mockery showconfig` (strict loader).
 3. The op log (input hash before/after, exit, panic, v3 tree, loaded values) is validated by TLC against
-   spec/MigrateTrace.tla, which evaluates TreeOK / LoadedOK on what the real code produced.
+   spec/MigrateTrace.tla, which evaluates TreeOK / LoadedOK / FilesOK on what the real code produced.
+
+Coverage table (statement clause / quantifier dimension -> where it is explored -> what is still thin)
+  every v2 key x every level         single (45 keys x 7 levels x 2 styles), null; THIN: none known.
+  subsets of keys per level          pairs (quick 4 keys x all x 2 levels; thorough all x all x 7), level subsets per key,
+                                     "everything" trees per shape, -simulate random subsets.  THIN: triples only by simulation.
+  tree shapes                        11 shapes: null config / interface / package bodies, empty and missing maps, 0/1/2
+                                     configs entries, config + configs together, 1-2 packages, 2 interfaces.
+                                     THIN: large trees (50 packages x 5 interfaces), > 2 configs entries, > 2 packages.
+  values ("same value" = bytes)      11 styles: plain, YAML-significant, non-clean paths, templates with quotes, look-alikes
+                                     (quoted AND bare), NFC/NFD, long, empty, trailing blanks, level-independent; both
+                                     boolean polarities, yes/no/on/off spellings, lists, maps, explicit null.
+                                     THIN: numbers with exponent/underscore forms, multi-line block scalars in the INPUT.
+  input rendering                    JSON, block YAML (PyYAML), flow YAML with anchors / aliases / merge keys, bare scalars.
+                                     THIN: comments, multiple documents, BOM, CRLF line ends, tabs, duplicate keys only as
+                                     "not a v2 file".
+  names preserved                    35 odd package / interface names (sets compared, order not promised).
+  input left unmodified / files      35 layouts (cwd same / below / beside the v2 file x --config rel / abs / discovered x
+                                     --outfile absent / rel / same base name / abs / the input itself) x stale output; every
+                                     file of the scratch tree compared.  THIN: unwritable output directory (root), symlinked
+                                     input or output, output path that is a directory.
+  never crashes                      every case + 10 kinds of non-v2 input (unknown keys, wrong types, not YAML, v3 file, list,
+                                     duplicate key, absent input, directory as input).  THIN: stdout is never a terminal here
+                                     (probed by hand: widths 0-200 do not crash the deprecation table).
+  strict loader accepts              showconfig on every written file, found by search (no flag).
 """
 import json
 import os
